@@ -155,9 +155,12 @@ def run_obligations(obs: List[Ob], scratch: str, progress=None) -> List[Res]:
 
     def job(kind, ob):
         env = child_env(scratch, ob.env)
-        if kind == "main":
-            return kind, ob, run_crosshair(harness_path(ob.module), ob.func, env, ob.timeout)
-        return kind, ob, run_crosshair(twins[ob.module], ob.func, env, min(ob.timeout, 60))
+        path, tmo = (harness_path(ob.module), ob.timeout) if kind == "main" else (twins[ob.module], min(ob.timeout, 60))
+        res = run_crosshair(path, ob.func, env, tmo)
+        if res[0] == "error":
+            # no verdict line at all (e.g. the process was killed, or the machine is overloaded): one retry before reporting
+            res = run_crosshair(path, ob.func, env, tmo)
+        return kind, ob, res
 
     results = {ob.oid: Res(ob=ob, verdict="error") for ob in obs}
     tasks = []
